@@ -6,7 +6,7 @@ import mutate, modgen
 
 # generous ceilings for one call on this machine under ASan (calibrated: the corpus stays below 0.4 s / 120 MiB);
 # they are there to catch runaway behaviour, not to benchmark
-def time_limit_us(size): return 4_000_000 + 40 * size
+def time_limit_us(size): return 4_000_000 + 60 * size
 def rss_limit_kb(size): return 256 * 1024 + 40 * (size // 1024)
 
 def parse(out):
@@ -21,6 +21,7 @@ def parse(out):
         elif l.startswith(("W ", "D ")): w = l.split(); cur["events"].append((w[0], int(w[1]), int(w[2])))
         elif l == "TRUNCATED": cur["truncated"] = True
         elif l.startswith("FRAME "): w = l.split(); cur["frame_ret"] = int(w[1]); cur["frame_usec"] = int(w[3])
+        elif l.startswith("FRAMES "): w = l.split(); cur["worst_frame_usec"] = int(w[3]); cur["mixratio"] = float(w[5])
         elif l == "ENDIN": cur["done"] = True
     return res
 
@@ -34,7 +35,7 @@ def main():
     model = V.ocaml_build("scanskel")
     env = V.san_env()
     tmpd = tempfile.mkdtemp(prefix="vp-c02-", dir="/var/tmp")
-    stats = {"inputs": 0, "loads_ok": 0, "traces_replayed": 0, "trace_events": 0, "max_main_events_over_bound": 0.0, "max_usec": 0, "max_rsskb": 0, "bombs": 0, "kinds": {}, "traces_too_long_for_replay": 0}
+    stats = {"inputs": 0, "loads_ok": 0, "traces_replayed": 0, "trace_events": 0, "max_main_events_over_bound": 0.0, "max_usec": 0, "max_rsskb": 0, "max_mixer_iterations_over_bound": 0.0, "bombs": 0, "kinds": {}, "traces_too_long_for_replay": 0}
     try:
         jobs = []      # (path, mode, label)
         if replay:
@@ -64,6 +65,14 @@ def main():
                 fmt = ("mod", "xm", "s3m", "it")[i % 4]
                 s = modgen.random_flow_song(rng, fmt, vocab=('speed', 'tempo', 'jump', 'break', 'delay', 'loop'), max_orders=rng.choice((2, 6, 20)), max_pats=rng.choice((1, 3, 6)),
                                             density=rng.choice((0.1, 0.3, 0.7)), hostile=True)
+                if fmt == "it" and i % 8 == 3:
+                    # degenerate sample loops played backwards at extreme pitch on many channels: the mixer's inner loop must still be
+                    # bounded by the tick size, not by the pitch
+                    s = modgen.random_flow_song(rng, "it", vocab=('speed',), max_orders=2, max_pats=1, density=0.0)
+                    s["chn"] = 32; s["speed"] = 1; s["bpm"] = 32
+                    s["it_loop"] = rng.choice(((0, 1), (5, 6), (62, 64), (0, 2))); s["it_c5"] = rng.choice((8363, 500000, 4000000))
+                    s["patterns"] = [[[dict(note=rng.choice((60, 96, 108)), ins=1, fx=('raw', (19, 0x9f))) for _ in range(32)] for _ in range(64)]]
+                    s["orders"] = [0]
                 p = os.path.join(tmpd, "g%05d.%s" % (i, fmt)); open(p, "wb").write(modgen.WRITERS[fmt](s)); jobs.append((p, "L", "generated")); songs[p] = (fmt, s)
             # small decompression bombs: a few KiB that unpack to many MiB of nothing loadable
             n = (24 if tier == "quick" else 200) << 20
@@ -72,6 +81,11 @@ def main():
             zb = io.BytesIO()
             with zipfile.ZipFile(zb, "w", zipfile.ZIP_DEFLATED) as z: z.writestr("a.mod", zeros)
             bombs["bomb.zip"] = zb.getvalue()
+            # one bomb just above the library's unpack ceiling (LIBXMP_DEPACK_LIMIT = 512 MiB): it must be refused, and refused without
+            # the output buffer having grown past the ceiling first
+            bc = bz2.BZ2Compressor(9); chunk = bytes(1 << 20); parts = []
+            for _ in range(640): parts.append(bc.compress(chunk))
+            parts.append(bc.flush()); bombs["bomb-over-ceiling.bz2"] = b"".join(parts)
             for name, blob in bombs.items():
                 p = os.path.join(tmpd, name); open(p, "wb").write(blob); jobs.append((p, "L", "bomb-" + name)); jobs.append((p, "T", "bomb-" + name))
         r = V.run([drv], inp="".join("%s\t%s\n" % (p, m) for p, m, _ in jobs), env=env, timeout=6000)
@@ -85,12 +99,18 @@ def main():
             blob = open(p, "rb").read()
             rep = {"label": lab, "mode": mode, "file": os.path.relpath(p, V.REPO) if p.startswith(V.REPO) else None, "file_hex": blob.hex() if not p.startswith(V.REPO) and len(blob) < 200000 and p not in (locals().get("songs") or {}) else None}
             if not replay and p in songs: rep["format"], rep["song"] = songs[p]
+            stats["max_mixer_iterations_over_bound"] = max(stats["max_mixer_iterations_over_bound"], x.get("mixratio", 0.0))
             stats["max_usec"] = max(stats["max_usec"], x["usec"]); stats["max_rsskb"] = max(stats["max_rsskb"], x["rsskb"])
             bad = None
             unpacked = (24 << 20) if lab.startswith("bomb") else 0          # the unpack ceiling allows what a container really expands to
+            if "over-ceiling" in lab: unpacked = 512 << 20
             if x["usec"] > time_limit_us(x["size"] + unpacked): bad = "%s took %.2f s on %d bytes" % ("load" if mode == "L" else "test", x["usec"] / 1e6, x["size"])
-            elif x["rsskb"] > rss_limit_kb(x["size"] + 8 * unpacked): bad = "%s grew the peak resident set by %d MiB on %d bytes" % ("load" if mode == "L" else "test", x["rsskb"] // 1024, x["size"])
+            elif "over-ceiling" in lab and x["ret"] >= 0: bad = "a stream expanding past the 512 MiB unpack ceiling was accepted (ret %d)" % x["ret"]
+            elif "over-ceiling" in lab and x["rsskb"] > (512 + 160) * 1024: bad = "peak resident set grew by %d MiB on a stream that must be refused at the 512 MiB ceiling" % (x["rsskb"] // 1024)
+            elif "over-ceiling" not in lab and x["rsskb"] > rss_limit_kb(x["size"] + 8 * unpacked): bad = "%s grew the peak resident set by %d MiB on %d bytes" % ("load" if mode == "L" else "test", x["rsskb"] // 1024, x["size"])
             elif x.get("frame_usec", 0) > 2_000_000: bad = "the first frame took %.2f s" % (x["frame_usec"] / 1e6)
+            elif x.get("mixratio", 0.0) > 1.0: bad = "the mixer's inner loop ran %.2f times the proved bound (maxvoc * 2 * ticksize iterations per tick, hook H5)" % x["mixratio"]
+            elif x.get("worst_frame_usec", 0) > 400_000: bad = "one frame of the first 40 took %.2f s" % (x["worst_frame_usec"] / 1e6)
             if bad:
                 ck.violation(dict(rep, what=bad, broken="C02 time / memory ceiling on the implementation"), key="c02:" + bad.split()[0]); continue
             if mode == "L" and x.get("cells") is not None and x["events"]:
@@ -133,8 +153,8 @@ def main():
         shutil.rmtree(tmpd, ignore_errors=True)
     ck.engine_stat("scanskel", **stats)
     ck.cov["rule"] = ("corpus modules, the fuzzer regression inputs of test-dev/data/f, truncated / bit-flipped / field-mutated corpus files (declared counts and sizes edited), generated MOD/XM/S3M/IT modules with hostile jumps, breaks, "
-                      "nested pattern loops and row delays, and small decompression bombs (24 MiB of zeros in gzip/bzip2/xz/zip): load and test each return within 4 s + 40 us/byte with a peak-RSS growth below 256 MiB + 40x the input; "
-                      "every loop iteration of scan_module is logged through hook H3, counted against the proved bound 514*255*R+514, and replayed event by event through the extracted skeleton (counter values must match)")
+                      "nested pattern loops and row delays (and IT modules playing one-frame sample loops backwards at extreme pitch on 32 channels), and small decompression bombs (24 MiB of zeros in gzip/bzip2/xz/zip): load and test each return within 4 s + 40 us/byte with a peak-RSS growth below 256 MiB + 40x the input; "
+                      "every loop iteration of scan_module is logged through hook H3, counted against the proved bound 514*255*R+514, and replayed event by event through the extracted skeleton (counter values must match); 40 frames of every loaded input are rendered and the iterations of the mixer's per-voice inner loop (hook H5) are held against the proved bound maxvoc * 2 * ticksize per tick")
     ck.assumptions += ["the time / memory ceilings are generous constants for this machine and sanitizer build: they detect runaway behaviour, they are not proved",
                        "the depackers' output-size guards are exercised by the bombs only (the 512 MiB ceiling itself is not reached in the quick tier); loaders' own loops are covered by the time ceiling on mutated inputs, not by a model"]
     ck.finish()
